@@ -567,3 +567,37 @@ def rule_phase_halves(ctx: Ctx, rels: List[str]) -> None:
                 else:
                     ctx.ok("num.halves", m, node)
     ctx.ok_abstract("num.halves", f"{n} phase-vector slices bounded by a qubit count analysed")
+
+
+
+def rule_outcome_used(ctx: Ctx) -> None:
+    """measure.outcome-used: a function that measures a qubit (z_measurement_gate) and then resets or removes it must use the
+    outcome it obtained: the operator of the measured qubit is replaced by its eigenvalue in every other generator, i.e. the
+    outcome decides a correction or a sign.  A bound-but-never-read outcome is a dropped sign (siblings reset_z / measure_*
+    all consume theirs)."""
+    repo = ctx.repo
+    m = repo.module(CLIFF)
+    n = 0
+    for fn in [f for f in m.tree.body if isinstance(f, ast.FunctionDef)]:
+        for st in ast.walk(fn):
+            if isinstance(st, ast.Assign) and isinstance(st.value, ast.Call) and call_attr(st.value) == "z_measurement_gate" \
+                    and isinstance(st.targets[0], ast.Tuple) and len(st.targets[0].elts) == 3:
+                n += 1
+                ctx.touch(m, fn)
+                o = st.targets[0].elts[1]
+                if isinstance(o, ast.Name) and o.id == "_":
+                    ctx.fail("measure.outcome-used", m, st, f"{fn.name} discards the measurement outcome (`_`)", func=fn.name,
+                             construct=f"{fn.name}: outcome discarded") if fn.name in ("remove_qubit", "reset_z") else ctx.ok("measure.outcome-used", m, st)
+                    continue
+                name = norm(o)
+                reads = [x for x in ast.walk(fn) if isinstance(x, ast.Name) and x.id == name and isinstance(x.ctx, ast.Load)]
+                if reads:
+                    ctx.ok("measure.outcome-used", m, st, what=f"{fn.name} consumes the outcome")
+                else:
+                    ctx.fail("measure.outcome-used", m, st,
+                             f"{fn.name} measures the qubit but never reads `{name}`: when the qubit is then dropped, every remaining generator "
+                             f"that acts with Z on it must take the measured eigenvalue as a sign; with the outcome unused that sign is lost "
+                             f"(removing an unentangled qubit in |1> flips another qubit)", func=fn.name,
+                             construct=f"{fn.name}: measurement outcome `{name}` never read")
+    if n == 0:
+        raise AnalysisError("measure.outcome-used: no z_measurement_gate call found")
